@@ -1,5 +1,6 @@
 import Driver.Util
 import InvProxy.Model.Backoff
+import InvProxy.Model.Bridge
 open InvProxy Driver
 
 /-- suite `backoff`: `target <n>` ↦ un-jittered target in ns;  `loop <pattern of 0/1>` ↦ retry counts slept with -/
@@ -12,9 +13,22 @@ def backoffStep (_ : Unit) : List String → Unit × String
     ((), " ".intercalate (r.map (fun o => match o with | none => "-" | some c => toString c.toNat)))
   | _ => ((), "bad-op")
 
+/-- suite `bridgeconn`: `new` | `w <hex>` | `inject <hex>` | `r <n>` on one direction of a bridged connection -/
+def bridgeStep (r : Bridge.Reader) : List String → Bridge.Reader × String
+  | ["new"] => ({ buffered := [], inbox := [] }, "ok")
+  | ["w", h] => let bs := unhexD h; ({ r with inbox := r.inbox ++ [Bridge.write bs] }, s!"ok {bs.length}")
+  | ["inject", h] => ({ r with inbox := r.inbox ++ [.other (unhexD h)] }, "ok")
+  | ["r", n] =>
+    match Bridge.read (natD n) r with
+    | .data bs r' => (r', "data " ++ hexOf bs)
+    | .block => (r, "block")
+    | .err => (r, "err")
+  | _ => (r, "bad-op")
+
 def main (args : List String) : IO UInt32 := do
   let stdin ← IO.getStdin
   let stdout ← IO.getStdout
   match args with
   | ["backoff"] => loop stdin stdout backoffStep (); return 0
+  | ["bridgeconn"] => loop stdin stdout bridgeStep { buffered := [], inbox := [] }; return 0
   | _ => IO.eprintln "usage: ipmodel <suite>"; return 2
